@@ -97,7 +97,7 @@ theorem step_safe (s : St) (op : Op) (h : QInv s) (he : Enabled s op) : Safe s o
   | reloadR v => trivial
   | commitW => trivial
   | loadW v => trivial
-  | commitR => trivial
+  | commitR b => trivial
 
 theorem Bnd.write {o : Params} {s : St} {n b : Nat} (hb : Bnd s b) : Bnd (step o s (.write n)) b := by
   refine ⟨by have := hb.1; simp [step]; omega, ?_⟩
@@ -186,7 +186,7 @@ theorem step_inv (o : Params) (ho : OrdersOK o) (s : St) (op : Op) (h : QInv s) 
       exact h.live x (by omega) hx2
     · omega
     · rw [startK_succ _ _ hk, ← h.rSum]; omega
-  | commitR =>
+  | commitR b =>
     simp only [step]
     split
     · refine { h with rh0 := ?_, rhLe := ?_, pHbLe := ?_, rNew := ?_, bRh := ?_ } <;> simp only [List.headD_cons]
@@ -323,6 +323,6 @@ theorem safeB_iff (s : St) (op : Op) : safeB s op = true ↔ Safe s op := by
   | reloadR v => simp [safeB, Safe]
   | commitW => simp [safeB, Safe]
   | loadW v => simp [safeB, Safe]
-  | commitR => simp [safeB, Safe]
+  | commitR b => simp [safeB, Safe]
 
 end Spsc
